@@ -170,6 +170,16 @@ func (sc scen) body() func() {
 				if sc.Mixed && k%2 == 1 {
 					r3, s3 = render.NewMarchingCubesUniform(10), fineField()
 				}
+			case "uniform-cached", "octree-cached":
+				// an extrusion of a cached profile (round 8): the evaluation workers reach one cache entry from two
+				// batches of the same layer (a thin 12x12-point lattice, two batches per layer); a fresh cache per execution
+				c2, _ := sdf.Circle2D(1)
+				ex := sdf.Extrude3D(sdf.Cache2D(c2), 2)
+				s3 = boxed{ex, sdf.Box3{Min: v3.Vec{X: -0.15, Y: -1.5, Z: -1.5}, Max: v3.Vec{X: 0.15, Y: 1.5, Z: 1.5}}}
+				r3 = render.NewMarchingCubesUniform(10)
+				if sc.Renderer == "octree-cached" {
+					r3 = render.NewMarchingCubesOctree(4)
+				}
 			case "octree":
 				r3, s3 = render.NewMarchingCubesOctree(2), field()
 			case "octree1":
@@ -439,11 +449,23 @@ func main() {
 		scens = append(scens, scen{Sink: "triangles", Renderer: "uniform100", Renders: 1, Plan: none(), Workers: w, Bound: 0},
 			scen{Sink: "stl", Renderer: "uniform100", Renders: 1, Plan: none(), Workers: w, Bound: 0})
 	}
+	// shapes with a lock of their own under the worker pool: an extrusion of a cached profile, <= 1 preemption
+	// (thorough: <= 2 for two workers), once and twice in a row
+	scens = append(scens, scen{Sink: "triangles", Renderer: "uniform-cached", Renders: 1, Plan: none(), Workers: 2, Bound: 1})
 	// census over alternating resolutions: coarse, fine, coarse, fine, ... (k = 2, 4, 6 renders = 1, 2, 3 periods)
 	for _, w := range []int{1, 2, 3} {
 		for _, k := range []int{2, 4, 6} {
 			scens = append(scens, scen{Sink: "triangles", Renderer: "uniform", Renders: k, Plan: none(), Workers: w, Bound: 0, Mixed: true})
 		}
+	}
+	if only := os.Getenv("VERIF_C12_ONLY"); only != "" { // debugging aid: restrict to one renderer kind
+		var keep []scen
+		for _, sc := range scens {
+			if sc.Renderer == only {
+				keep = append(keep, sc)
+			}
+		}
+		scens = keep
 	}
 	census := map[string]map[int]int64{}
 	m := c.RunSharded(len(scens), func(i int, j *vlib.Job) {
